@@ -73,3 +73,11 @@ pub fn take_panics() -> (u32, Option<String>) {
     let m = LAST_PANIC.with(|l| l.borrow_mut().take());
     (n, m)
 }
+
+static SELF_EXE: std::sync::OnceLock<std::path::PathBuf> = std::sync::OnceLock::new();
+
+/// Path of this binary as of process start (children are spawned from it). Resolved once: after a rebuild
+/// during a long run /proc/self/exe reads "... (deleted)", while the path still names a valid build.
+pub fn self_exe() -> std::path::PathBuf {
+    SELF_EXE.get_or_init(|| std::env::current_exe().expect("current_exe")).clone()
+}
